@@ -593,7 +593,7 @@ Proof.
       destruct A4 as [A4 A4']. rewrite Hq in A4. inversion A4 as [Hlq].
       assert (Hrr : o_region og = r) by congruence. rewrite Hrr, Ers in A5. inversion A5; subst rs0.
       assert (Pk : is_parent_key rs q pf = true).
-      { unfold is_parent_key. rewrite Hlq, A7, N.eqb_refl. rewrite <- Hlq. apply N.eqb_neq in A4'. rewrite A4'. reflexivity. }
+      { unfold is_parent_key. subst q. rewrite A7, N.eqb_refl. apply N.eqb_neq in A4'. rewrite A4'. reflexivity. }
       rewrite Pk in I. apply In_fst in I. rewrite <- A2 in I.
       destruct (remove1k_NoDup _ (o_lid o) _ (tC3 _ _ _ T _ _ Eog)) as [_ Hn]. contradiction. }
     destruct (BW _ _ A1) as (co' & Eco' & M1 & M2 & M3 & M4 & M5).
@@ -609,7 +609,7 @@ Proof.
     assert (Hne : cf <> f).
     { intro; subst cf. eapply bk_oset_none; [|exact B]. rewrite M2. eauto. }
     assert (B0 : bk O co p).
-    { eapply bk_same; [symmetry; exact M2|symmetry; exact M4|]. apply (bk_oset_other O f None co' p); [|exact B].
+    { eapply bk_same; [exact M2|exact M4|]. apply (bk_oset_other O f None co' p); [|exact B].
       rewrite M2, (Kw _ _ Eco). exact Hne. }
     pose proof (tC2 _ _ _ T _ _ _ _ _ _ _ _ Ers0 E2 Eco B0 E4 Eog Kn) as I0.
     rewrite L5. destruct (is_parent_key rs q pf) eqn:Pk; [|exact I0].
@@ -617,7 +617,7 @@ Proof.
     unfold is_parent_key in Pk. apply andb_prop in Pk. destruct Pk as [_ Pk].
     destruct (aget q (r_local rs)) as [pf'|] eqn:Eq; [|discriminate]. apply N.eqb_eq in Pk. subst pf'.
     destruct (W2 _ _ _ _ Ers Eq) as (o1 & Eo1 & _ & Hr1). destruct (W2 _ _ _ _ Ers0 E4) as (o2 & Eo2 & _ & Hr2).
-    assert (r0 = r) by congruence. subst r0. rewrite Ers in Ers0. inversion Ers0; subst rs0. congruence.
+    assert (r0 = r) by congruence. assert (rs0 = rs) by congruence. subst rs0. congruence.
   - (* C3 *)
     intros pf po' E. destruct (FW _ _ E) as (og & Eog & L1 & L2 & L3 & L4 & L5). rewrite L5.
     pose proof (tC3 _ _ _ T _ _ Eog) as N0. destruct (is_parent_key rs q pf); [|exact N0].
@@ -652,7 +652,7 @@ Proof.
     assert (Hne : cf <> f).
     { intro; subst cf. eapply bk_oset_none; [|exact B]. rewrite M2. eauto. }
     assert (B0 : bk O co p).
-    { eapply bk_same; [symmetry; exact M2|symmetry; exact M4|]. apply (bk_oset_other O f None co' p); [|exact B].
+    { eapply bk_same; [exact M2|exact M4|]. apply (bk_oset_other O f None co' p); [|exact B].
       rewrite M2, (Kw _ _ Eco). exact Hne. }
     destruct (tO2 _ _ _ T _ _ _ _ _ _ Ers0 E2 Eco B0 Hn) as (ls & El & Il).
     destruct ((r0 =? r) && negb (q =? 0)) eqn:Q.
@@ -673,4 +673,675 @@ Proof.
         apply remove1_NoDup. eapply (tO3 _ _ _ T); eauto.
       * eapply (tO3 _ _ _ T); eauto.
     + rewrite (Rsame eq_refl) in E2. eapply (tO3 _ _ _ T); eauto.
+Qed.
+
+Lemma ins_child_In : forall h e ch x, In x (ins_child h e ch) <-> x = e \/ In x ch.
+Proof.
+  intros h e ch x. unfold ins_child. destruct h; simpl.
+  - split; intros [H|H]; auto.
+  - rewrite in_app_iff. simpl. split; [intros [H|[H|[]]]|intros [H|H]]; auto.
+Qed.
+Lemma app_one_NoDup : forall (c : N) l, NoDup l -> ~ In c l -> NoDup (l ++ [c]).
+Proof.
+  induction l as [|a t IH]; simpl; intros Nl Hl; [constructor; [tauto|constructor]|].
+  inversion Nl; subst. constructor; [rewrite in_app_iff; simpl; intuition|apply IH; tauto].
+Qed.
+
+Lemma ins_child_NoDup : forall h c v ch, NoDup (map fst ch) -> ~ In c (map fst ch) ->
+  NoDup (map fst (ins_child h (c, v) ch)).
+Proof.
+  intros h c v ch N0 Hn. unfold ins_child. destruct h; simpl; [constructor; assumption|].
+  rewrite map_app. simpl. apply app_one_NoDup; assumption.
+Qed.
+
+(* ---------- _parent_object attaches a detached, indexed object ---------- *)
+Lemma TreeG_parent : forall w O K r f h o rs w', Base w -> TreeG w O K ->
+  get_obj w f = Some o -> o_region o = r -> get_rs w r = Some rs -> aget (o_lid o) (r_local rs) = Some f ->
+  O f = Some None -> (o_parent o <> 0 -> kne K r (o_parent o)) ->
+  parent_object w r f h = Some w' -> TreeG w' (oset O f (Some (o_parent o))) K.
+Proof.
+  intros w O K r f h o rs w' [Kw W2] T Eo Hr Ers Eidx HO HK H.
+  destruct (parent_spec _ _ _ _ _ _ _ Kw Eo Ers H) as (S0 & S1 & S2).
+  pose proof (Kw _ _ Eo) as Kf.
+  assert (NB : forall p, ~ bk O o p).
+  { intros p [B _]. unfold epar in B. rewrite Kf, HO in B. discriminate. }
+  assert (IDX : forall r0 rs0 c, get_rs w r0 = Some rs0 -> aget c (r_local rs0) = Some f -> r0 = r /\ c = o_lid o).
+  { intros r0 rs0 c E1 E2. destruct (W2 _ _ _ _ E1 E2) as (o0 & Eo0 & Hl & Hr0). rewrite Eo in Eo0. inversion Eo0; subst o0.
+    split; congruence. }
+  destruct (N.eq_dec (o_parent o) 0) as [P0|P0].
+  { rewrite (S0 P0). eapply TreeG_bk_equiv; [|exact T]. intros g og Eg p.
+    destruct (N.eq_dec (o_full og) f) as [Hf|Hf].
+    - assert (g = f) by (rewrite <- (Kw _ _ Eg); exact Hf). subst g. rewrite Eo in Eg. inversion Eg; subst og.
+      rewrite bk_oset_some by exact Kf. split; [intro B; destruct (NB _ B)|]. intros [E1 E2]. congruence.
+    - symmetry. apply bk_oset_other. exact Hf. }
+  specialize (HK P0).
+  destruct (aget (o_parent o) (r_local rs)) as [pf|] eqn:Ep.
+  - (* parent tracked *)
+    destruct (S1 P0 pf eq_refl) as (po & Epo & Hnin & R & G). clear S0 S1 S2.
+    pose proof (ospec_fwd _ _ _ G) as FW. pose proof (ospec_bwd _ _ _ G) as BW.
+    destruct (W2 _ _ _ _ Ers Ep) as (po0 & Epo0 & Hlp & Hrp). rewrite Epo in Epo0. inversion Epo0; subst po0.
+    destruct (BW _ _ Eo) as (o' & Eo' & N1 & N2 & N3 & N4 & N5).
+    constructor.
+    + (* C1 *)
+      intros g po' c cf E I. destruct (FW _ _ E) as (og & Eog & L1 & L2 & L3 & L4 & L5). rewrite L5 in I.
+      assert (Cases : (g = pf /\ (c, cf) = (o_lid o, f)) \/ In (c, cf) (o_children og)).
+      { destruct (g =? pf) eqn:Q; [|right; exact I]. apply N.eqb_eq in Q. apply ins_child_In in I. destruct I; auto. }
+      destruct Cases as [[-> Ee]|I0].
+      * inversion Ee; subst c cf. rewrite Epo in Eog. inversion Eog; subst og.
+        exists o', rs. rewrite L3, L1, Hlp, Hrp. split; [exact Eo'|]. split; [exact N1|]. split; [congruence|]. split.
+        -- apply bk_oset_some; [congruence|]. split; congruence.
+        -- rewrite R. auto.
+      * destruct (tC1 _ _ _ T _ _ _ _ Eog I0) as (co & rs0 & A1 & A2 & A3 & A4 & A5 & A6 & A7).
+        assert (Hne : cf <> f) by (intro; subst cf; rewrite Eo in A1; inversion A1; subst co; exact (NB _ A4)).
+        destruct (BW _ _ A1) as (co' & Eco' & M1 & M2 & M3 & M4 & M5).
+        exists co', rs0. rewrite L3, L1. split; [exact Eco'|]. split; [congruence|]. split; [congruence|]. split.
+        -- apply bk_oset_other; [rewrite M2, (Kw _ _ A1); exact Hne|]. eapply bk_same; [| |exact A4]; congruence.
+        -- rewrite R. auto.
+    + (* C2 *)
+      intros r0 rs0 c cf co' p pf' po' E1 E2 E3 B E4 E5 Kn. rewrite R in E1.
+      destruct (FW _ _ E3) as (co & Eco & M1 & M2 & M3 & M4 & M5).
+      destruct (FW _ _ E5) as (og & Eog & L1 & L2 & L3 & L4 & L5). rewrite L5.
+      destruct (N.eq_dec cf f) as [->|Hne].
+      * rewrite Eo in Eco. inversion Eco; subst co. apply bk_oset_some in B; [|congruence]. destruct B as [<- _].
+        destruct (IDX _ _ _ E1 E2) as [-> ->]. rewrite Ers in E1. inversion E1; subst rs0. rewrite Ep in E4. inversion E4; subst pf'.
+        rewrite N.eqb_refl. apply ins_child_In. left. reflexivity.
+      * assert (B0 : bk O co p).
+        { eapply bk_same; [exact M2|exact M4|]. apply (bk_oset_other O f (Some (o_parent o)) co' p); [|exact B].
+          rewrite M2, (Kw _ _ Eco). exact Hne. }
+        pose proof (tC2 _ _ _ T _ _ _ _ _ _ _ _ E1 E2 Eco B0 E4 Eog Kn) as I0.
+        destruct (pf' =? pf); [apply ins_child_In; right; exact I0|exact I0].
+    + (* C3 *)
+      intros g po' E. destruct (FW _ _ E) as (og & Eog & L1 & L2 & L3 & L4 & L5). rewrite L5.
+      pose proof (tC3 _ _ _ T _ _ Eog) as N0. destruct (g =? pf) eqn:Q; [|exact N0].
+      apply N.eqb_eq in Q. subst g. rewrite Epo in Eog. inversion Eog; subst og. apply ins_child_NoDup; assumption.
+    + (* O1 *)
+      intros r0 rs0 p ls c E1 E2 I. rewrite R in E1.
+      destruct (tO1 _ _ _ T _ _ _ _ _ E1 E2 I) as (A1 & A2 & cf & co & A3 & A4 & A5).
+      split; [exact A1|]. split; [exact A2|].
+      assert (Hne : cf <> f) by (intro; subst cf; rewrite Eo in A4; inversion A4; subst co; exact (NB _ A5)).
+      destruct (BW _ _ A4) as (co' & Eco' & M1 & M2 & M3 & M4 & M5).
+      exists cf, co'. split; [exact A3|]. split; [exact Eco'|].
+      apply bk_oset_other; [rewrite M2, (Kw _ _ A4); exact Hne|]. eapply bk_same; [| |exact A5]; congruence.
+    + (* O2 *)
+      intros r0 rs0 c cf co' p E1 E2 E3 B Hn. rewrite R in E1.
+      destruct (FW _ _ E3) as (co & Eco & M1 & M2 & M3 & M4 & M5).
+      destruct (N.eq_dec cf f) as [->|Hne].
+      * rewrite Eo in Eco. inversion Eco; subst co. apply bk_oset_some in B; [|congruence]. destruct B as [<- _].
+        destruct (IDX _ _ _ E1 E2) as [-> ->]. rewrite Ers in E1. inversion E1; subst rs0.
+        destruct Hn as [Hn|Hn]; [congruence|]. exfalso. apply HK. exact Hn.
+      * assert (B0 : bk O co p).
+        { eapply bk_same; [exact M2|exact M4|]. apply (bk_oset_other O f (Some (o_parent o)) co' p); [|exact B].
+          rewrite M2, (Kw _ _ Eco). exact Hne. }
+        eapply (tO2 _ _ _ T); eauto.
+    + (* O3 *)
+      intros r0 rs0 p ls E1 E2. rewrite R in E1. eapply (tO3 _ _ _ T); eauto.
+  - (* parent unknown: the object becomes an orphan *)
+    destruct (S2 P0 eq_refl) as (R & G). clear S0 S1 S2.
+    assert (G' : forall g, option_map tcore (get_obj w' g) = option_map (fun og => with_ch og ((fun _ x => o_children x) g og)) (get_obj w g)).
+    { intros g. rewrite G. destruct (get_obj w g); reflexivity. }
+    pose proof (ospec_fwd _ _ _ G') as FW. pose proof (ospec_bwd _ _ _ G') as BW. cbn beta in FW, BW.
+    destruct (BW _ _ Eo) as (o' & Eo' & N1 & N2 & N3 & N4 & N5).
+    set (l := o_lid o) in *. set (P := o_parent o) in *.
+    assert (RS : forall r0 rs', get_rs w' r0 = Some rs' ->
+              exists rs0, get_rs w r0 = Some rs0 /\ r_local rs' = r_local rs0 /\
+                (r0 <> r -> r_orphans rs' = r_orphans rs0) /\
+                (r0 = r -> rs0 = rs /\ r_orphans rs' = r_orphans (track_orphan rs l P))).
+    { intros r0 rs' E. specialize (R r0). rewrite E in R. cbn [option_map] in R. unfold tridx in R. destruct (r0 =? r) eqn:Q.
+      - apply N.eqb_eq in Q. subst r0. exists rs. inversion R as [[R1 R2]]. try rewrite track_orphan_local in R1.
+        repeat split; auto; congruence.
+      - apply N.eqb_neq in Q. destruct (get_rs w r0) as [rs0|]; cbn [option_map] in R; [|discriminate]. inversion R as [[R1 R2]].
+        exists rs0. repeat split; auto; congruence. }
+    assert (RSb : forall r0 rs0, get_rs w r0 = Some rs0 -> exists rs', get_rs w' r0 = Some rs' /\ r_local rs' = r_local rs0).
+    { intros r0 rs0 E. specialize (R r0). destruct (get_rs w' r0) as [rs'|] eqn:E'.
+      - destruct (RS _ _ E') as (rs1 & E1 & L1 & _). exists rs'. split; [reflexivity|congruence].
+      - cbn in R. destruct (r0 =? r); [discriminate|]. rewrite E in R. discriminate. }
+    constructor.
+    + (* C1 *)
+      intros g po' c cf E I. destruct (FW _ _ E) as (og & Eog & L1 & L2 & L3 & L4 & L5). rewrite L5 in I.
+      destruct (tC1 _ _ _ T _ _ _ _ Eog I) as (co & rs0 & A1 & A2 & A3 & A4 & A5 & A6 & A7).
+      assert (Hne : cf <> f) by (intro; subst cf; rewrite Eo in A1; inversion A1; subst co; exact (NB _ A4)).
+      destruct (BW _ _ A1) as (co' & Eco' & M1 & M2 & M3 & M4 & M5).
+      destruct (RSb _ _ A5) as (rs' & Ers' & Lrs').
+      exists co', rs'. rewrite L3, L1. split; [exact Eco'|]. split; [congruence|]. split; [congruence|]. split.
+      * apply bk_oset_other; [rewrite M2, (Kw _ _ A1); exact Hne|]. eapply bk_same; [| |exact A4]; congruence.
+      * rewrite Lrs'. auto.
+    + (* C2 *)
+      intros r0 rs' c cf co' p pf' po' E1 E2 E3 B E4 E5 Kn.
+      destruct (RS _ _ E1) as (rs0 & Ers0 & Lrs & _). rewrite Lrs in E2, E4.
+      destruct (FW _ _ E3) as (co & Eco & M1 & M2 & M3 & M4 & M5).
+      destruct (FW _ _ E5) as (og & Eog & L1 & L2 & L3 & L4 & L5). rewrite L5.
+      destruct (N.eq_dec cf f) as [->|Hne].
+      * rewrite Eo in Eco. inversion Eco; subst co. apply bk_oset_some in B; [|congruence]. destruct B as [<- _].
+        destruct (IDX _ _ _ Ers0 E2) as [-> _]. rewrite Ers in Ers0. inversion Ers0; subst rs0. congruence.
+      * assert (B0 : bk O co p).
+        { eapply bk_same; [exact M2|exact M4|]. apply (bk_oset_other O f (Some P) co' p); [|exact B].
+          rewrite M2, (Kw _ _ Eco). exact Hne. }
+        eapply (tC2 _ _ _ T); eauto.
+    + (* C3 *)
+      intros g po' E. destruct (FW _ _ E) as (og & Eog & L1 & L2 & L3 & L4 & L5). rewrite L5. eapply (tC3 _ _ _ T); eauto.
+    + (* O1 *)
+      intros r0 rs' p ls' c E1 E2 I.
+      destruct (RS _ _ E1) as (rs0 & Ers0 & Lrs & Rsame & Rmod).
+      assert (Cases : (r0 = r /\ p = P /\ c = l) \/ exists ls, aget p (r_orphans rs0) = Some ls /\ In c ls).
+      { destruct (N.eq_dec r0 r) as [->|Hr0].
+        - destruct (Rmod eq_refl) as [-> Ro]. rewrite Ro, track_orphan_get in E2. destruct (p =? P) eqn:Qp.
+          + apply N.eqb_eq in Qp. subst p. inversion E2; subst ls'. destruct (aget P (r_orphans rs)) as [ls|] eqn:El.
+            * apply in_app_iff in I. destruct I as [I|[I|[]]]; [right; eauto|left; auto].
+            * destruct I as [I|[]]. left; auto.
+          + right; eauto.
+        - rewrite (Rsame Hr0) in E2. right; eauto. }
+      destruct Cases as [(-> & -> & ->)|(ls & El & Il)].
+      * destruct (Rmod eq_refl) as [-> _]. split; [exact P0|]. split; [intros _; rewrite Lrs; exact Ep|].
+        exists f, o'. rewrite Lrs. split; [exact Eidx|]. split; [exact Eo'|].
+        apply bk_oset_some; [congruence|]. split; [reflexivity|exact P0].
+      * destruct (tO1 _ _ _ T _ _ _ _ _ Ers0 El Il) as (A1 & A2 & cf & co & A3 & A4 & A5).
+        split; [exact A1|]. split; [rewrite Lrs; exact A2|].
+        assert (Hne : cf <> f) by (intro; subst cf; rewrite Eo in A4; inversion A4; subst co; exact (NB _ A5)).
+        destruct (BW _ _ A4) as (co' & Eco' & M1 & M2 & M3 & M4 & M5).
+        exists cf, co'. rewrite Lrs. split; [exact A3|]. split; [exact Eco'|].
+        apply bk_oset_other; [rewrite M2, (Kw _ _ A4); exact Hne|]. eapply bk_same; [| |exact A5]; congruence.
+    + (* O2 *)
+      intros r0 rs' c cf co' p E1 E2 E3 B Hn.
+      destruct (RS _ _ E1) as (rs0 & Ers0 & Lrs & Rsame & Rmod). rewrite Lrs in E2, Hn.
+      destruct (FW _ _ E3) as (co & Eco & M1 & M2 & M3 & M4 & M5).
+      destruct (N.eq_dec cf f) as [->|Hne].
+      * rewrite Eo in Eco. inversion Eco; subst co. apply bk_oset_some in B; [|congruence]. destruct B as [<- _].
+        destruct (IDX _ _ _ Ers0 E2) as [-> ->]. destruct (Rmod eq_refl) as [-> Ro]. rewrite Ro, track_orphan_get, N.eqb_refl.
+        eexists; split; [reflexivity|]. destruct (aget P (r_orphans rs)); [apply in_app_iff; right|]; left; reflexivity.
+      * assert (B0 : bk O co p).
+        { eapply bk_same; [exact M2|exact M4|]. apply (bk_oset_other O f (Some P) co' p); [|exact B].
+          rewrite M2, (Kw _ _ Eco). exact Hne. }
+        destruct (tO2 _ _ _ T _ _ _ _ _ _ Ers0 E2 Eco B0 Hn) as (ls & El & Il).
+        destruct (N.eq_dec r0 r) as [->|Hr0].
+        -- destruct (Rmod eq_refl) as [-> Ro]. rewrite Ro, track_orphan_get. destruct (p =? P) eqn:Qp; [|eauto].
+           apply N.eqb_eq in Qp. subst p. rewrite El. eexists; split; [reflexivity|]. apply in_app_iff. left. exact Il.
+        -- rewrite (Rsame Hr0). eauto.
+    + (* O3 *)
+      intros r0 rs' p ls' E1 E2. destruct (RS _ _ E1) as (rs0 & Ers0 & Lrs & Rsame & Rmod).
+      destruct (N.eq_dec r0 r) as [->|Hr0]; [|rewrite (Rsame Hr0) in E2; eapply (tO3 _ _ _ T); eauto].
+      destruct (Rmod eq_refl) as [-> Ro]. rewrite Ro, track_orphan_get in E2. destruct (p =? P) eqn:Qp; [|eapply (tO3 _ _ _ T); eauto].
+      apply N.eqb_eq in Qp. subst p. inversion E2; subst ls'. destruct (aget P (r_orphans rs)) as [ls|] eqn:El.
+      * apply app_one_NoDup; [eapply (tO3 _ _ _ T); eauto|]. intro Il.
+        destruct (tO1 _ _ _ T _ _ _ _ _ Ers El Il) as (_ & _ & cf & co & A3 & A4 & A5).
+        fold l in Eidx. rewrite Eidx in A3. inversion A3; subst cf. rewrite Eo in A4. inversion A4; subst co. exact (NB _ A5).
+      * constructor; [simpl; tauto|constructor].
+Qed.
+
+(* ---------- Base is a frame property ---------- *)
+Lemma frame_Base : forall w w', frame w w' -> Base w -> Base w'.
+Proof.
+  intros w w' F [K A]. split; [eapply frame_keys; eauto|].
+  intros r rs' l f Ers El.
+  destruct (frame_rs _ _ _ _ F Ers) as [rs [Ers0 C]]. apply ridx_inj in C. destruct C as [_ C].
+  rewrite <- C in El. destruct (A _ _ _ _ Ers0 El) as [o [Eo [Hl Hr]]].
+  destruct (frame_obj_rev _ _ _ _ F Eo) as [o' [Eo' C']]. apply core_inj in C'.
+  exists o'. intuition congruence.
+Qed.
+
+(* ---------- rewriting one object's non-structural fields / its parent field under an override ---------- *)
+Lemma TreeG_ocorr : forall w O K w' O',
+  (forall r, get_rs w' r = get_rs w r) ->
+  (forall g, match get_obj w g, get_obj w' g with
+             | Some a, Some b => o_lid a = o_lid b /\ o_full a = o_full b /\ o_region a = o_region b /\
+                                 o_children a = o_children b /\ (forall p, bk O a p <-> bk O' b p)
+             | None, None => True
+             | _, _ => False
+             end) ->
+  TreeG w O K -> TreeG w' O' K.
+Proof.
+  intros w O K w' O' R G T.
+  assert (FW : forall g b, get_obj w' g = Some b -> exists a, get_obj w g = Some a /\ o_lid a = o_lid b /\ o_full a = o_full b /\
+               o_region a = o_region b /\ o_children a = o_children b /\ (forall p, bk O a p <-> bk O' b p)).
+  { intros g b E. specialize (G g). rewrite E in G. destruct (get_obj w g) as [a|]; [eauto|contradiction]. }
+  assert (BW : forall g a, get_obj w g = Some a -> exists b, get_obj w' g = Some b /\ o_lid a = o_lid b /\ o_full a = o_full b /\
+               o_region a = o_region b /\ o_children a = o_children b /\ (forall p, bk O a p <-> bk O' b p)).
+  { intros g a E. specialize (G g). rewrite E in G. destruct (get_obj w' g) as [b|]; [eauto|contradiction]. }
+  constructor.
+  - intros pf po' c cf E I. destruct (FW _ _ E) as (po & Epo & L1 & L2 & L3 & L4 & _). rewrite <- L4 in I.
+    destruct (tC1 _ _ _ T _ _ _ _ Epo I) as (co & rs & A1 & A2 & A3 & A4 & A5 & A6 & A7).
+    destruct (BW _ _ A1) as (co' & Eco' & M1 & M2 & M3 & M4 & M5).
+    exists co', rs. rewrite <- L3, <- L1, R. split; [exact Eco'|]. split; [congruence|]. split; [congruence|].
+    split; [apply M5; exact A4|auto].
+  - intros r rs c cf co' p pf po' E1 E2 E3 B E4 E5 Kn. rewrite R in E1.
+    destruct (FW _ _ E3) as (co & Eco & M1 & M2 & M3 & M4 & M5). destruct (FW _ _ E5) as (po & Epo & L1 & L2 & L3 & L4 & _).
+    rewrite <- L4. eapply (tC2 _ _ _ T); eauto. apply M5. exact B.
+  - intros pf po' E. destruct (FW _ _ E) as (po & Epo & L1 & L2 & L3 & L4 & _). rewrite <- L4. eapply (tC3 _ _ _ T); eauto.
+  - intros r rs p ls c E1 E2 I. rewrite R in E1.
+    destruct (tO1 _ _ _ T _ _ _ _ _ E1 E2 I) as (A1 & A2 & cf & co & A3 & A4 & A5).
+    destruct (BW _ _ A4) as (co' & Eco' & M1 & M2 & M3 & M4 & M5).
+    split; [exact A1|]. split; [exact A2|]. exists cf, co'. split; [exact A3|]. split; [exact Eco'|apply M5; exact A5].
+  - intros r rs c cf co' p E1 E2 E3 B Hn. rewrite R in E1.
+    destruct (FW _ _ E3) as (co & Eco & M1 & M2 & M3 & M4 & M5). eapply (tO2 _ _ _ T); eauto. apply M5. exact B.
+  - intros r rs p ls E1 E2. rewrite R in E1. eapply (tO3 _ _ _ T); eauto.
+Qed.
+
+(* the object's fields other than lid / full / region / children change; it stays bookkept under its old parent *)
+Lemma TreeG_set_fields : forall w O K f o o', Base w -> TreeG w O K -> get_obj w f = Some o -> O f = None ->
+  o_lid o' = o_lid o -> o_full o' = o_full o -> o_region o' = o_region o -> o_children o' = o_children o ->
+  TreeG (set_obj w o') (oset O f (Some (o_parent o))) K.
+Proof.
+  intros w O K f o o' [Kw _] T Eo HO H1 H2 H3 H4. pose proof (Kw _ _ Eo) as Kf.
+  eapply TreeG_ocorr; [| |exact T]; [reflexivity|].
+  intros g. rewrite get_obj_set_obj. rewrite H2, Kf. destruct (g =? f) eqn:Q.
+  - apply N.eqb_eq in Q. subst g. rewrite Eo.
+    split; [congruence|]. split; [congruence|]. split; [congruence|]. split; [congruence|]. intros p. split.
+    + intros B. apply bk_oset_some; [congruence|]. destruct B as [B1 B2]. unfold epar in B1. rewrite Kf, HO in B1. split; congruence.
+    + intros B. apply bk_oset_some in B; [|congruence]. destruct B as [B1 B2]. split; [|exact B2].
+      unfold epar. rewrite Kf, HO. congruence.
+  - destruct (get_obj w g) as [a|] eqn:Eg; [|exact I]. do 4 (split; [reflexivity|]). intros p. split.
+    + intros B. apply bk_oset_other; [|exact B]. rewrite (Kw _ _ Eg). apply N.eqb_neq. exact Q.
+    + intros B. eapply bk_oset_other; [|exact B]. rewrite (Kw _ _ Eg). apply N.eqb_neq. exact Q.
+Qed.
+
+(* a brand-new object: in the full-id lookup only, detached, no children *)
+Lemma TreeG_new_obj : forall w O K o, Base w -> TreeG w O K -> get_obj w (o_full o) = None -> o_children o = [] ->
+  TreeG (set_obj w o) (oset O (o_full o) None) K.
+Proof.
+  intros w O K o [Kw W2] T Hn Hc.
+  assert (GO : forall g a, get_obj w g = Some a -> get_obj (set_obj w o) g = Some a /\ g <> o_full o).
+  { intros g a E. rewrite get_obj_set_obj. destruct (g =? o_full o) eqn:Q; [apply N.eqb_eq in Q; congruence|].
+    apply N.eqb_neq in Q. auto. }
+  assert (GN : forall g a, get_obj (set_obj w o) g = Some a -> (g = o_full o /\ a = o) \/ (g <> o_full o /\ get_obj w g = Some a)).
+  { intros g a E. rewrite get_obj_set_obj in E. destruct (g =? o_full o) eqn:Q.
+    - apply N.eqb_eq in Q. inversion E. subst. left. auto.
+    - apply N.eqb_neq in Q. auto. }
+  assert (BKo : forall a p, o_full a <> o_full o -> (bk (oset O (o_full o) None) a p <-> bk O a p)).
+  { intros. apply bk_oset_other. assumption. }
+  constructor.
+  - intros pf po c cf E I. destruct (GN _ _ E) as [[-> ->]|[Hne E0]]; [rewrite Hc in I; destruct I|].
+    destruct (tC1 _ _ _ T _ _ _ _ E0 I) as (co & rs & A1 & A2 & A3 & A4 & A5).
+    destruct (GO _ _ A1) as [A1' Hcf]. exists co, rs. split; [exact A1'|]. split; [exact A2|]. split; [exact A3|].
+    split; [apply BKo; [rewrite (Kw _ _ A1); exact Hcf|exact A4]|exact A5].
+  - intros r rs c cf co p pf po E1 E2 E3 B E4 E5 Kn. rewrite get_rs_set_obj in E1.
+    destruct (GN _ _ E3) as [[-> ->]|[Hne E3']]; [destruct (bk_oset_none O (o_full o) o p eq_refl B)|].
+    destruct (GN _ _ E5) as [[-> ->]|[Hne5 E5']].
+    + destruct (W2 _ _ _ _ E1 E4) as (x & Ex & _). congruence.
+    + eapply (tC2 _ _ _ T); eauto. apply BKo in B; [exact B|]. rewrite (Kw _ _ E3'). exact Hne.
+  - intros pf po E. destruct (GN _ _ E) as [[-> ->]|[Hne E0]]; [rewrite Hc; constructor|]. eapply (tC3 _ _ _ T); eauto.
+  - intros r rs p ls c E1 E2 I. rewrite get_rs_set_obj in E1.
+    destruct (tO1 _ _ _ T _ _ _ _ _ E1 E2 I) as (A1 & A2 & cf & co & A3 & A4 & A5).
+    destruct (GO _ _ A4) as [A4' Hcf]. split; [exact A1|]. split; [exact A2|]. exists cf, co.
+    split; [exact A3|]. split; [exact A4'|]. apply BKo; [rewrite (Kw _ _ A4); exact Hcf|exact A5].
+  - intros r rs c cf co p E1 E2 E3 B Hn'. rewrite get_rs_set_obj in E1.
+    destruct (GN _ _ E3) as [[-> ->]|[Hne E3']]; [destruct (bk_oset_none O (o_full o) o p eq_refl B)|].
+    eapply (tO2 _ _ _ T); eauto. apply BKo in B; [exact B|]. rewrite (Kw _ _ E3'). exact Hne.
+  - intros r rs p ls E1 E2. rewrite get_rs_set_obj in E1. eapply (tO3 _ _ _ T); eauto.
+Qed.
+
+(* ---------- indexing a detached object: its local id becomes the open key ---------- *)
+Lemma Base_index : forall w x o r rs m, Base w -> get_obj w x = Some o -> o_region o = r -> get_rs w r = Some rs ->
+  Base (set_rs w r (with_missing (with_local rs (aset (o_lid o) x (r_local rs))) m)).
+Proof.
+  intros w x o r rs m [Kw W2] Eo Hr Ers. split; [exact Kw|].
+  intros r0 rs' l f E1 E2. rewrite get_rs_set_rs in E1. rewrite get_obj_set_rs. destruct (r0 =? r) eqn:Q.
+  - apply N.eqb_eq in Q. subst r0. inversion E1; subst rs'. cbn [r_local with_local with_missing] in E2.
+    rewrite aget_aset in E2. destruct (l =? o_lid o) eqn:Ql.
+    + apply N.eqb_eq in Ql. inversion E2; subst. eauto.
+    + eauto.
+  - eauto.
+Qed.
+
+Lemma TreeG_index : forall w O r rs x o m, Base w -> TreeG w O None -> get_obj w x = Some o -> o_region o = r ->
+  get_rs w r = Some rs -> aget (o_lid o) (r_local rs) = None -> O x = Some None ->
+  TreeG (set_rs w r (with_missing (with_local rs (aset (o_lid o) x (r_local rs))) m)) O (Some (r, o_lid o)).
+Proof.
+  intros w O r rs x o m [Kw W2] T Eo Hr Ers Hfree HO. set (l := o_lid o) in *.
+  set (w1 := set_rs w r (with_missing (with_local rs (aset l x (r_local rs))) m)).
+  pose proof (Kw _ _ Eo) as Kx.
+  assert (NB : forall p, ~ bk O o p).
+  { intros p [B _]. unfold epar in B. rewrite Kx, HO in B. discriminate. }
+  assert (LOC : forall r0 rs', get_rs w1 r0 = Some rs' ->
+            exists rs0, get_rs w r0 = Some rs0 /\ r_orphans rs' = r_orphans rs0 /\
+              forall c, aget c (r_local rs') = if (r0 =? r) && (c =? l) then Some x else aget c (r_local rs0)).
+  { intros r0 rs' E. unfold w1 in E. rewrite get_rs_set_rs in E. destruct (r0 =? r) eqn:Q.
+    - apply N.eqb_eq in Q. subst r0. inversion E; subst rs'. exists rs. split; [exact Ers|]. split; [reflexivity|].
+      intros c. cbn [r_local with_local with_missing andb]. rewrite aget_aset. reflexivity.
+    - exists rs'. split; [exact E|]. split; [reflexivity|]. intros c. reflexivity. }
+  assert (LOCb : forall r0 rs0, get_rs w r0 = Some rs0 -> exists rs', get_rs w1 r0 = Some rs' /\ r_orphans rs' = r_orphans rs0 /\
+              forall c, aget c (r_local rs') = if (r0 =? r) && (c =? l) then Some x else aget c (r_local rs0)).
+  { intros r0 rs0 E. unfold w1. rewrite get_rs_set_rs. destruct (r0 =? r) eqn:Q.
+    - apply N.eqb_eq in Q. subst r0. rewrite Ers in E. inversion E; subst rs0. eexists. split; [reflexivity|]. split; [reflexivity|].
+      intros c. cbn [r_local with_local with_missing andb]. rewrite aget_aset. reflexivity.
+    - exists rs0. split; [exact E|]. split; [reflexivity|]. intros c. reflexivity. }
+  (* a key that is already indexed is not the fresh key *)
+  assert (OLDK : forall r0 rs0 c v, get_rs w r0 = Some rs0 -> aget c (r_local rs0) = Some v -> (r0 =? r) && (c =? l) = false).
+  { intros r0 rs0 c v E1 E2. destruct (r0 =? r) eqn:Q1; [|reflexivity]. destruct (c =? l) eqn:Q2; [|reflexivity].
+    apply N.eqb_eq in Q1, Q2. subst. rewrite Ers in E1. inversion E1; subst rs0. congruence. }
+  constructor.
+  - intros pf po c cf E I. change (get_obj w pf = Some po) in E.
+    destruct (tC1 _ _ _ T _ _ _ _ E I) as (co & rs0 & A1 & A2 & A3 & A4 & A5 & A6 & A7).
+    destruct (LOCb _ _ A5) as (rs' & E' & _ & L').
+    exists co, rs'. split; [exact A1|]. split; [exact A2|]. split; [exact A3|]. split; [exact A4|]. split; [exact E'|].
+    rewrite !L', (OLDK _ _ _ _ A5 A6), (OLDK _ _ _ _ A5 A7). auto.
+  - intros r0 rs' c cf co p pf po E1 E2 E3 B E4 E5 Kn. change (get_obj w cf = Some co) in E3. change (get_obj w pf = Some po) in E5.
+    destruct (LOC _ _ E1) as (rs0 & Ers0 & _ & L'). rewrite L' in E2, E4.
+    destruct ((r0 =? r) && (c =? l)) eqn:Qc.
+    { inversion E2; subst cf. rewrite Eo in E3. inversion E3; subst co. destruct (NB _ B). }
+    destruct ((r0 =? r) && (p =? l)) eqn:Qp.
+    { apply andb_prop in Qp. destruct Qp as [Q1 Q2]. apply N.eqb_eq in Q1, Q2. subst. exfalso. apply Kn. reflexivity. }
+    eapply (tC2 _ _ _ T); eauto. unfold kne. discriminate.
+  - intros pf po E. eapply (tC3 _ _ _ T); eauto.
+  - intros r0 rs' p ls c E1 E2 I. destruct (LOC _ _ E1) as (rs0 & Ers0 & Lo & L'). rewrite Lo in E2.
+    destruct (tO1 _ _ _ T _ _ _ _ _ Ers0 E2 I) as (A1 & A2 & cf & co & A3 & A4 & A5).
+    split; [exact A1|]. split.
+    + intros Kn. rewrite L'. destruct ((r0 =? r) && (p =? l)) eqn:Qp.
+      * apply andb_prop in Qp. destruct Qp as [Q1 Q2]. apply N.eqb_eq in Q1, Q2. subst. exfalso. apply Kn. reflexivity.
+      * apply A2. unfold kne. discriminate.
+    + exists cf, co. rewrite L', (OLDK _ _ _ _ Ers0 A3). auto.
+  - intros r0 rs' c cf co p E1 E2 E3 B Hn. change (get_obj w cf = Some co) in E3.
+    destruct (LOC _ _ E1) as (rs0 & Ers0 & Lo & L'). rewrite L' in E2. rewrite Lo.
+    destruct ((r0 =? r) && (c =? l)) eqn:Qc.
+    { inversion E2; subst cf. rewrite Eo in E3. inversion E3; subst co. destruct (NB _ B). }
+    eapply (tO2 _ _ _ T); eauto. left. destruct Hn as [Hn|Hn].
+    + rewrite L' in Hn. destruct ((r0 =? r) && (p =? l)); [discriminate|exact Hn].
+    + inversion Hn; subst. assert (rs0 = rs) by congruence. subst rs0. exact Hfree.
+  - intros r0 rs' p ls E1 E2. destruct (LOC _ _ E1) as (rs0 & Ers0 & Lo & L'). rewrite Lo in E2. eapply (tO3 _ _ _ T); eauto.
+Qed.
+
+(* ---------- collect_orphans closes the open key; the former orphans are detached ---------- *)
+Definition fulls (rs : rstate) (ls : list N) : list N :=
+  flat_map (fun c => match aget c (r_local rs) with Some cf => [cf] | None => [] end) ls.
+Definition odet (O : ovr) (fs : list N) : ovr := fun g => if mem g fs then Some None else O g.
+
+Lemma fulls_In : forall rs ls cf, In cf (fulls rs ls) <-> exists c, In c ls /\ aget c (r_local rs) = Some cf.
+Proof.
+  intros rs ls cf. unfold fulls. rewrite in_flat_map. split.
+  - intros (c & Ic & H). exists c. split; [exact Ic|]. destruct (aget c (r_local rs)); [|destruct H].
+    destruct H as [H|[]]. congruence.
+  - intros (c & Ic & H). exists c. split; [exact Ic|]. rewrite H. left. reflexivity.
+Qed.
+Lemma fulls_local : forall rs rs' ls, r_local rs' = r_local rs -> fulls rs' ls = fulls rs ls.
+Proof. intros. unfold fulls. rewrite H. reflexivity. Qed.
+
+Lemma bk_odet : forall O fs a p, bk (odet O fs) a p <-> mem (o_full a) fs = false /\ bk O a p.
+Proof.
+  intros O fs a p. unfold bk, epar, odet. destruct (mem (o_full a) fs); split.
+  - intros [H _]. discriminate.
+  - intros [H _]. discriminate.
+  - tauto.
+  - tauto.
+Qed.
+
+Lemma collect_spec : forall rs l ls rs', collect_orphans rs l = (ls, rs') ->
+  r_local rs' = r_local rs /\
+  (forall p, aget p (r_orphans rs') = if p =? l then None else aget p (r_orphans rs)) /\
+  ls = match aget l (r_orphans rs) with Some x => x | None => [] end.
+Proof.
+  intros rs l ls rs' H. unfold collect_orphans in H. destruct (aget l (r_orphans rs)) as [x|] eqn:E; inversion H; subst.
+  - split; [reflexivity|]. split; [|reflexivity]. intros p. cbn [r_orphans with_orphans]. apply aget_adel.
+  - split; [reflexivity|]. split; [|reflexivity]. intros p. destruct (p =? l) eqn:Q; [|reflexivity].
+    apply N.eqb_eq in Q. subst. exact E.
+Qed.
+
+Lemma TreeG_collect : forall w O r rs l x ox ls rs', Base w -> TreeG w O (Some (r, l)) -> get_rs w r = Some rs ->
+  aget l (r_local rs) = Some x -> get_obj w x = Some ox -> o_children ox = [] ->
+  collect_orphans rs l = (ls, rs') ->
+  TreeG (set_rs w r rs') (odet O (fulls rs ls)) None.
+Proof.
+  intros w O r rs l x ox ls rs' [Kw W2] T Ers Elx Eox Hch Hc.
+  destruct (collect_spec _ _ _ _ Hc) as (CL & CO & CLs).
+  set (fs := fulls rs ls).
+  assert (RS : forall r0 rs1, get_rs (set_rs w r rs') r0 = Some rs1 ->
+            exists rs0, get_rs w r0 = Some rs0 /\ r_local rs1 = r_local rs0 /\
+              forall p, aget p (r_orphans rs1) = if (r0 =? r) && (p =? l) then None else aget p (r_orphans rs0)).
+  { intros r0 rs1 E. rewrite get_rs_set_rs in E. destruct (r0 =? r) eqn:Q.
+    - apply N.eqb_eq in Q. subst r0. inversion E; subst rs1. exists rs. split; [exact Ers|]. split; [exact CL|]. intros p. cbn [andb]. apply CO.
+    - exists rs1. split; [exact E|]. split; [reflexivity|]. intros p. reflexivity. }
+  assert (RSb : forall r0 rs0, get_rs w r0 = Some rs0 -> exists rs1, get_rs (set_rs w r rs') r0 = Some rs1 /\ r_local rs1 = r_local rs0).
+  { intros r0 rs0 E. rewrite get_rs_set_rs. destruct (r0 =? r) eqn:Q.
+    - apply N.eqb_eq in Q. subst r0. rewrite Ers in E. inversion E; subst rs0. eauto.
+    - eauto. }
+  (* an indexed object bookkept under p that is a collected orphan sits under the open key *)
+  assert (F3 : forall r0 rs0 c cf a p, get_rs w r0 = Some rs0 -> aget c (r_local rs0) = Some cf -> get_obj w cf = Some a ->
+                 bk O a p -> mem cf fs = true -> r0 = r /\ p = l /\ In c ls).
+  { intros r0 rs0 c cf a p E1 E2 E3 B M. apply mem_In in M. apply fulls_In in M. destruct M as (c' & Ic' & Ec').
+    destruct (aget l (r_orphans rs)) as [ls0|] eqn:El; [|subst ls; destruct Ic']. subst ls.
+    destruct (tO1 _ _ _ T _ _ _ _ _ Ers El Ic') as (_ & _ & cf' & co' & A3 & A4 & A5).
+    rewrite Ec' in A3. inversion A3; subst cf'. rewrite E3 in A4. inversion A4; subst co'.
+    destruct B as [B1 _]. destruct A5 as [A5 _]. rewrite B1 in A5. inversion A5; subst p.
+    destruct (W2 _ _ _ _ Ers Ec') as (a1 & Ea1 & Hl1 & Hr1). destruct (W2 _ _ _ _ E1 E2) as (a2 & Ea2 & Hl2 & Hr2).
+    rewrite E3 in Ea1, Ea2. inversion Ea1; subst a1. inversion Ea2; subst a2.
+    split; [congruence|]. split; [reflexivity|]. congruence. }
+  constructor.
+  - intros pf po c cf E I. change (get_obj w pf = Some po) in E.
+    destruct (tC1 _ _ _ T _ _ _ _ E I) as (co & rs0 & A1 & A2 & A3 & A4 & A5 & A6 & A7).
+    destruct (RSb _ _ A5) as (rs1 & E1 & L1).
+    exists co, rs1. split; [exact A1|]. split; [exact A2|]. split; [exact A3|]. split.
+    + apply bk_odet. split; [|exact A4]. rewrite (Kw _ _ A1). destruct (mem cf fs) eqn:M; [|reflexivity]. exfalso.
+      destruct (F3 _ _ _ _ _ _ A5 A6 A1 A4 M) as (Hr0 & Hp & _).
+      rewrite Hr0, Ers in A5. inversion A5; subst rs0. rewrite Hp, Elx in A7. inversion A7; subst pf.
+      rewrite Eox in E. inversion E; subst po. rewrite Hch in I. destruct I.
+    + rewrite L1. auto.
+  - intros r0 rs1 c cf co p pf po E1 E2 E3 B E4 E5 _. change (get_obj w cf = Some co) in E3. change (get_obj w pf = Some po) in E5.
+    destruct (RS _ _ E1) as (rs0 & Ers0 & L1 & _). rewrite L1 in E2, E4.
+    apply bk_odet in B. destruct B as [M B]. rewrite (Kw _ _ E3) in M.
+    destruct ((r0 =? r) && (p =? l)) eqn:Q.
+    + exfalso. apply andb_prop in Q. destruct Q as [Q1 Q2]. apply N.eqb_eq in Q1, Q2. subst r0 p.
+      assert (rs0 = rs) by congruence. subst rs0.
+      destruct (tO2 _ _ _ T _ _ _ _ _ _ Ers E2 E3 B (or_intror eq_refl)) as (ls0 & El0 & Il0).
+      rewrite El0 in CLs. subst ls. assert (In cf fs) by (apply fulls_In; eauto).
+      apply mem_false in M. contradiction.
+    + eapply (tC2 _ _ _ T); eauto. intro Hk. inversion Hk; subst. rewrite !N.eqb_refl in Q. discriminate.
+  - intros pf po E. eapply (tC3 _ _ _ T); eauto.
+  - intros r0 rs1 p ls0 c E1 E2 I. destruct (RS _ _ E1) as (rs0 & Ers0 & L1 & Lo). rewrite Lo in E2.
+    destruct ((r0 =? r) && (p =? l)) eqn:Q; [discriminate|].
+    destruct (tO1 _ _ _ T _ _ _ _ _ Ers0 E2 I) as (A1 & A2 & cf & co & A3 & A4 & A5).
+    assert (Kn : kne (Some (r, l)) r0 p). { intro Hk. inversion Hk; subst. rewrite !N.eqb_refl in Q. discriminate. }
+    split; [exact A1|]. split; [intros _; rewrite L1; exact (A2 Kn)|]. exists cf, co. rewrite L1. split; [exact A3|]. split; [exact A4|].
+    apply bk_odet. split; [|exact A5]. rewrite (Kw _ _ A4). destruct (mem cf fs) eqn:M; [|reflexivity]. exfalso.
+    destruct (F3 _ _ _ _ _ _ Ers0 A3 A4 A5 M) as (Hr0 & Hp & _). subst. rewrite !N.eqb_refl in Q. discriminate.
+  - intros r0 rs1 c cf co p E1 E2 E3 B Hn. change (get_obj w cf = Some co) in E3.
+    destruct (RS _ _ E1) as (rs0 & Ers0 & L1 & Lo). rewrite L1 in E2, Hn. rewrite Lo.
+    apply bk_odet in B. destruct B as [M B]. rewrite (Kw _ _ E3) in M.
+    destruct Hn as [Hn|Hn]; [|discriminate].
+    destruct (tO2 _ _ _ T _ _ _ _ _ _ Ers0 E2 E3 B (or_introl Hn)) as (ls0 & El0 & Il0).
+    destruct ((r0 =? r) && (p =? l)) eqn:Q; [|eauto]. exfalso.
+    apply andb_prop in Q. destruct Q as [Q1 Q2]. apply N.eqb_eq in Q1, Q2. subst r0 p.
+    assert (rs0 = rs) by congruence. subst rs0. rewrite El0 in CLs. subst ls.
+    assert (In cf fs) by (apply fulls_In; eauto). apply mem_false in M. contradiction.
+  - intros r0 rs1 p ls0 E1 E2. destruct (RS _ _ E1) as (rs0 & Ers0 & L1 & Lo). rewrite Lo in E2.
+    destruct ((r0 =? r) && (p =? l)); [discriminate|]. eapply (tO3 _ _ _ T); eauto.
+Qed.
+
+(* ---------- what _parent_object leaves alone ---------- *)
+Lemma parent_pres : forall w r f h w' o rs, keys_ok w -> get_obj w f = Some o -> get_rs w r = Some rs ->
+  parent_object w r f h = Some w' ->
+  (forall g a', get_obj w' g = Some a' -> exists a, get_obj w g = Some a /\ o_lid a' = o_lid a /\ o_full a' = o_full a /\
+      o_region a' = o_region a /\ o_parent a' = o_parent a /\
+      (aget (o_parent o) (r_local rs) <> Some g -> o_children a' = o_children a)) /\
+  (forall r0 rs', get_rs w' r0 = Some rs' -> exists rs0, get_rs w r0 = Some rs0 /\ r_local rs' = r_local rs0).
+Proof.
+  intros w r f h w' o rs K Eo Ers H.
+  pose proof (frame_parent_object _ _ _ _ _ K H) as F.
+  destruct (parent_spec _ _ _ _ _ _ _ K Eo Ers H) as (S0 & S1 & S2). split.
+  - destruct (N.eq_dec (o_parent o) 0) as [P0|P0].
+    { rewrite (S0 P0). intros g a' E. exists a'. repeat split; auto. }
+    destruct (aget (o_parent o) (r_local rs)) as [pf|] eqn:Ep.
+    + destruct (S1 P0 pf eq_refl) as (po & Epo & _ & _ & G). intros g a' E.
+      destruct (ospec_fwd _ _ _ G _ _ E) as (a & Ea & L1 & L2 & L3 & L4 & L5).
+      exists a. repeat split; auto. intros Hne. rewrite L5. destruct (g =? pf) eqn:Q; [|reflexivity].
+      apply N.eqb_eq in Q. congruence.
+    + destruct (S2 P0 eq_refl) as (_ & G). intros g a' E. specialize (G g). rewrite E in G. cbn in G.
+      destruct (get_obj w g) as [a|]; cbn in G; [|discriminate]. assert (G' : tcore a' = tcore a) by congruence. apply tcore_inj in G'. exists a. intuition congruence.
+  - intros r0 rs' E. destruct (frame_rs _ _ _ _ F E) as (rs0 & E0 & C). apply ridx_inj in C. exists rs0. intuition congruence.
+Qed.
+
+(* ---------- the adoption loop of track_object ---------- *)
+Lemma TreeG_adopt : forall ls w O r rs w', Base w -> TreeG w (odet O (fulls rs ls)) None -> get_rs w r = Some rs ->
+  NoDup ls -> (forall c cf, In c ls -> aget c (r_local rs) = Some cf -> O cf = None) ->
+  adopt w r ls = Some w' -> TreeG w' O None /\ Base w'.
+Proof.
+  induction ls as [|c t IH]; intros w O r rs w' Bw T Ers ND HO H; simpl in H.
+  - inversion H; subst. split; [|exact Bw]. eapply TreeG_ext; [|exact T]. intros g. reflexivity.
+  - rewrite Ers in H. cbn [bind] in H. destruct (aget c (r_local rs)) as [cf|] eqn:Ec; [|discriminate].
+    bind_inv H. rename w0 into w1. destruct Bw as [Kw W2].
+    destruct (W2 _ _ _ _ Ers Ec) as (co & Eco & Hl & Hr).
+    assert (Hfs : fulls rs (c :: t) = cf :: fulls rs t).
+    { unfold fulls. simpl. rewrite Ec. reflexivity. }
+    rewrite Hfs in T.
+    assert (T1 : TreeG w1 (oset (odet O (cf :: fulls rs t)) cf (Some (o_parent co))) None).
+    { eapply (TreeG_parent w _ None r cf false co rs w1); [split; assumption|exact T|exact Eco|exact Hr|exact Ers|rewrite Hl; exact Ec| |intros _ Hk; discriminate|exact E].
+      unfold odet. cbn. rewrite N.eqb_refl. reflexivity. }
+    destruct (parent_pres _ _ _ _ _ _ _ Kw Eco Ers E) as [PO PR].
+    pose proof (frame_parent_object _ _ _ _ _ Kw E) as F1.
+    assert (B1 : Base w1) by (eapply frame_Base; [exact F1|split; assumption]).
+    destruct (frame_rs_rev _ _ _ _ F1 Ers) as (rs1 & Ers1 & C1). apply ridx_inj in C1. destruct C1 as [_ C1].
+    assert (Hnc : ~ In c t) by (inversion ND; assumption). assert (NDt : NoDup t) by (inversion ND; assumption).
+    assert (Hcf : ~ In cf (fulls rs t)).
+    { intro Hi. apply fulls_In in Hi. destruct Hi as (c' & Ic' & Ec'). destruct (W2 _ _ _ _ Ers Ec') as (a & Ea & Hla & _).
+      rewrite Eco in Ea. inversion Ea; subst a. congruence. }
+    eapply (IH w1 O r rs1); [exact B1| |exact Ers1|exact NDt| |exact H].
+    + rewrite (fulls_local rs rs1 t (eq_sym C1)). eapply TreeG_bk_equiv; [|exact T1].
+      intros g a Eg p. destruct (PO _ _ Eg) as (a0 & Ea0 & L1 & L2 & L3 & L4 & _).
+      destruct B1 as [Kw1 _]. pose proof (Kw1 _ _ Eg) as Kg.
+      destruct (N.eq_dec g cf) as [->|Hne].
+      * rewrite bk_oset_some by exact Kg. rewrite bk_odet. rewrite Kg.
+        assert (M : mem cf (fulls rs t) = false) by (apply mem_false; exact Hcf). rewrite M.
+        rewrite Eco in Ea0. inversion Ea0; subst a0.
+        unfold bk, epar. rewrite Kg, (HO c cf (or_introl eq_refl) Ec). rewrite L4. split.
+        { intros [X Y]. split; [reflexivity|]. split; congruence. }
+        { intros [_ [X Y]]. split; congruence. }
+      * rewrite bk_oset_other by (rewrite Kg; exact Hne). rewrite !bk_odet. rewrite Kg. cbn [mem existsb].
+        apply N.eqb_neq in Hne. rewrite Hne. cbn [orb]. reflexivity.
+    + intros c' cf' Ic' Ec'. rewrite <- C1 in Ec'. eapply HO; [right; exact Ic'|exact Ec'].
+Qed.
+
+(* ---------- track_object of a detached, un-indexed object ---------- *)
+Lemma track_object_Tree : forall w r x o rs w', Base w -> TreeG w (oset no_ovr x None) None ->
+  get_obj w x = Some o -> o_region o = r -> get_rs w r = Some rs -> aget (o_lid o) (r_local rs) = None ->
+  o_parent o <> o_lid o ->
+  track_object w r x = Some w' -> Tree w'.
+Proof.
+  intros w r x o rs w' Bw T Eo Hr Ers Hfree Hself H. unfold track_object in H. rewrite Eo, Ers in H. cbn [bind] in H.
+  set (l := o_lid o) in *. set (m := sdel l (r_missing rs)) in *.
+  set (w1 := set_rs w r (with_missing (with_local rs (aset l x (r_local rs))) m)) in *.
+  pose proof (Base_index _ _ _ _ _ m Bw Eo Hr Ers) as B1. fold l in B1. fold w1 in B1.
+  pose proof (TreeG_index _ _ _ _ _ _ m Bw T Eo Hr Ers Hfree) as T1. fold l in T1. fold w1 in T1.
+  specialize (T1 ltac:(unfold oset; rewrite N.eqb_refl; reflexivity)).
+  bind_inv H. rename w0 into w2.
+  set (rs1 := with_missing (with_local rs (aset l x (r_local rs))) m) in *.
+  assert (Ers1 : get_rs w1 r = Some rs1) by (unfold w1; rewrite get_rs_set_rs, N.eqb_refl; reflexivity).
+  assert (Eo1 : get_obj w1 x = Some o) by exact Eo.
+  assert (Eidx1 : aget (o_lid o) (r_local rs1) = Some x).
+  { unfold rs1. cbn [r_local with_local with_missing]. rewrite aget_aset. fold l. rewrite N.eqb_refl. reflexivity. }
+  destruct B1 as [K1 W21].
+  assert (T2 : TreeG w2 (oset (oset no_ovr x None) x (Some (o_parent o))) (Some (r, l))).
+  { eapply (TreeG_parent w1 _ _ r x false o rs1 w2); [split; assumption|exact T1|exact Eo1|exact Hr|exact Ers1|exact Eidx1| | |exact E].
+    - unfold oset. rewrite N.eqb_refl. reflexivity.
+    - intros _ Hk. inversion Hk. congruence. }
+  destruct (parent_pres _ _ _ _ _ _ _ K1 Eo1 Ers1 E) as [PO PR].
+  pose proof (frame_parent_object _ _ _ _ _ K1 E) as F2.
+  assert (B2 : Base w2) by (eapply frame_Base; [exact F2|split; assumption]).
+  destruct (frame_obj_rev _ _ _ _ F2 Eo1) as (o2 & Eo2 & _).
+  destruct (PO _ _ Eo2) as (o1' & Eo1' & L1 & L2 & L3 & L4 & L5). rewrite Eo1 in Eo1'. inversion Eo1'; subst o1'.
+  (* x's own children list is untouched: its parent is not itself *)
+  assert (Hch0 : o_children o = []).
+  { destruct (o_children o) as [|[c cf] t] eqn:Ech; [reflexivity|]. exfalso.
+    assert (Ic : In (c, cf) (o_children o)) by (rewrite Ech; left; reflexivity).
+    destruct (tC1 _ _ _ T _ _ _ _ Eo Ic) as (co & rs0 & _ & _ & _ & _ & A5 & _ & A7).
+    rewrite Hr, Ers in A5. inversion A5; subst rs0. fold l in A7. congruence. }
+  assert (Hch : o_children o2 = []).
+  { rewrite L5; [exact Hch0|].
+    intro Hp. unfold rs1 in Hp. cbn [r_local with_local with_missing] in Hp. rewrite aget_aset in Hp.
+    destruct (o_parent o =? l) eqn:Q; [apply N.eqb_eq in Q; contradiction|].
+    destruct (proj2 Bw _ _ _ _ Ers Hp) as (a & Ea & Hla & _). rewrite Eo in Ea. inversion Ea; subst a. fold l in Hla. congruence. }
+  (* back to no overrides: x is now bookkept under its own parent field *)
+  assert (T2' : TreeG w2 no_ovr (Some (r, l))).
+  { eapply TreeG_bk_equiv; [|exact T2]. intros g a Eg p. destruct B2 as [K2 _]. pose proof (K2 _ _ Eg) as Kg.
+    destruct (N.eq_dec g x) as [->|Hne].
+    - rewrite bk_oset_some by exact Kg. rewrite Eo2 in Eg. inversion Eg; subst a.
+      unfold bk, epar, no_ovr. rewrite L4. split; intros [X Y]; split; congruence.
+    - rewrite bk_oset_other by (rewrite Kg; exact Hne). rewrite bk_oset_other by (rewrite Kg; exact Hne). reflexivity. }
+  bind_inv H. rename r0 into rs2.
+  destruct (PR _ _ E0) as (rs1' & Ers1' & Lrs2). rewrite Ers1 in Ers1'. inversion Ers1'; subst rs1'.
+  destruct (collect_orphans rs2 l) as [orph rs3] eqn:Ec.
+  assert (Elx2 : aget l (r_local rs2) = Some x) by (rewrite Lrs2; exact Eidx1).
+  pose proof (TreeG_collect _ _ _ _ _ _ _ _ _ B2 T2' E0 Elx2 Eo2 Hch Ec) as T3.
+  destruct (collect_spec _ _ _ _ Ec) as (CL & CO & CLs).
+  assert (B3 : Base (set_rs w2 r rs3)).
+  { eapply frame_Base; [|exact B2]. eapply frame_set_rs; [exact E0|]. unfold ridx.
+    change rs3 with (snd (orph, rs3)). rewrite <- Ec. apply ridx_collect. }
+  assert (Ers3 : get_rs (set_rs w2 r rs3) r = Some rs3) by (rewrite get_rs_set_rs, N.eqb_refl; reflexivity).
+  rewrite <- (fulls_local rs2 rs3 orph CL) in T3.
+  assert (ND : NoDup orph).
+  { subst orph. destruct (aget l (r_orphans rs2)) eqn:El; [|constructor]. eapply (tO3 _ _ _ T2'); eauto. }
+  destruct (TreeG_adopt orph _ no_ovr r rs3 w' B3 T3 Ers3 ND ltac:(intros; reflexivity) H) as [T4 _].
+  exact T4.
+Qed.
+
+(* ---------- what _unparent_object leaves alone ---------- *)
+Lemma unparent_pres : forall w r f q w' o rs, keys_ok w -> get_obj w f = Some o -> get_rs w r = Some rs ->
+  unparent_object w r f q = Some w' ->
+  (forall g a', get_obj w' g = Some a' -> exists a, get_obj w g = Some a /\ o_lid a' = o_lid a /\ o_full a' = o_full a /\
+      o_region a' = o_region a /\ o_parent a' = o_parent a /\
+      (is_parent_key rs q g = false -> o_children a' = o_children a)) /\
+  (forall g a, get_obj w g = Some a -> exists a', get_obj w' g = Some a' /\ o_lid a' = o_lid a /\ o_full a' = o_full a /\
+      o_region a' = o_region a /\ o_parent a' = o_parent a /\
+      o_children a' = if is_parent_key rs q g then remove1k (o_lid o) (o_children a) else o_children a) /\
+  (forall r0 rs', get_rs w' r0 = Some rs' -> exists rs0, get_rs w r0 = Some rs0 /\ r_local rs' = r_local rs0) /\
+  (forall r0 rs0, get_rs w r0 = Some rs0 -> exists rs', get_rs w' r0 = Some rs' /\ r_local rs' = r_local rs0).
+Proof.
+  intros w r f q w' o rs K Eo Ers H.
+  destruct (unparent_spec _ _ _ _ _ _ _ K Eo Ers H) as [R G].
+  pose proof (ospec_fwd _ _ _ G) as FW. pose proof (ospec_bwd _ _ _ G) as BW. cbn beta in FW, BW.
+  split; [|split; [|split]].
+  - intros g a' E. destruct (FW _ _ E) as (a & Ea & L1 & L2 & L3 & L4 & L5). exists a. repeat split; auto.
+    intros Hk. rewrite L5, Hk. reflexivity.
+  - intros g a E. destruct (BW _ _ E) as (a' & Ea' & L1 & L2 & L3 & L4 & L5). exists a'. repeat split; auto.
+  - intros r0 rs' E. rewrite R in E. destruct ((r0 =? r) && negb (q =? 0)) eqn:Q.
+    + apply andb_prop in Q. destruct Q as [Q _]. apply N.eqb_eq in Q. subst r0. inversion E; subst rs'.
+      exists rs. split; [exact Ers|apply untrack_orphan_local].
+    + eauto.
+  - intros r0 rs0 E. rewrite R. destruct ((r0 =? r) && negb (q =? 0)) eqn:Q.
+    + apply andb_prop in Q. destruct Q as [Q _]. apply N.eqb_eq in Q. subst r0. rewrite Ers in E. inversion E; subst rs0.
+      eexists. split; [reflexivity|apply untrack_orphan_local].
+    + eauto.
+Qed.
+
+(* ---------- handle_object_reparented: the object is still bookkept under q, its parent field is already new ---------- *)
+Lemma reparent_Tree : forall w r f q o rs w', Base w -> TreeG w (oset no_ovr f (Some q)) None ->
+  get_obj w f = Some o -> o_region o = r -> get_rs w r = Some rs -> aget (o_lid o) (r_local rs) = Some f ->
+  handle_object_reparented w r f q = Some w' -> Tree w'.
+Proof.
+  intros w r f q o rs w' Bw T Eo Hr Ers Eidx H. pose proof Bw as [Kw W2]. pose proof (Kw _ _ Eo) as Kf.
+  unfold handle_object_reparented in H. bind_inv H. rename w0 into w1. bind_inv H. rename o0 into o1.
+  assert (T1 : TreeG w1 (oset (oset no_ovr f (Some q)) f None) None).
+  { eapply (TreeG_unparent w _ None r f q o rs w1); eauto. unfold epar, oset. rewrite Kf, N.eqb_refl. reflexivity. }
+  destruct (unparent_pres _ _ _ _ _ _ _ Kw Eo Ers E) as (PF & PB & RF & RB).
+  pose proof (frame_unparent_object _ _ _ _ _ Kw E) as F1.
+  assert (B1 : Base w1) by (eapply frame_Base; eauto). pose proof B1 as [K1 W21].
+  destruct (PF _ _ E0) as (o0 & Eo0 & L1 & L2 & L3 & L4 & _). rewrite Eo in Eo0. inversion Eo0; subst o0.
+  destruct (RB _ _ Ers) as (rs1 & Ers1 & Lrs1).
+  assert (T2 : TreeG w' (oset (oset (oset no_ovr f (Some q)) f None) f (Some (o_parent o1))) None).
+  { eapply (TreeG_parent w1 _ None r f _ o1 rs1 w'); [exact B1|exact T1|exact E0|congruence|exact Ers1| | | |exact H].
+    - rewrite Lrs1, L1. exact Eidx.
+    - unfold oset. rewrite N.eqb_refl. reflexivity.
+    - intros _ Hk. discriminate. }
+  destruct (parent_pres _ _ _ _ _ _ _ K1 E0 Ers1 H) as [PO _].
+  pose proof (frame_parent_object _ _ _ _ _ K1 H) as F2. assert (B2 : Base w') by (eapply frame_Base; eauto).
+  eapply TreeG_bk_equiv; [|exact T2]. intros g a Eg p. destruct B2 as [K2 _]. pose proof (K2 _ _ Eg) as Kg.
+  destruct (N.eq_dec g f) as [->|Hne].
+  - rewrite bk_oset_some by exact Kg. destruct (PO _ _ Eg) as (a1 & Ea1 & _ & _ & _ & M4 & _).
+    rewrite E0 in Ea1. inversion Ea1; subst a1. unfold bk, epar, no_ovr. rewrite M4. split; intros [X Y]; split; congruence.
+  - rewrite !bk_oset_other by (rewrite Kg; exact Hne). reflexivity.
+Qed.
+
+(* ---------- a new object (ObjectUpdate for an unknown full id) ---------- *)
+Lemma track_new_Tree : forall w r o w', Idx w -> Tree w -> get_obj w (o_full o) = None -> o_region o = r ->
+  o_children o = [] -> region_state w r <> None -> lid_unique w r (o_lid o) (o_full o) -> o_parent o <> o_lid o ->
+  track_new w r o = Some w' -> Tree w'.
+Proof.
+  intros w r o w' I T Hn Hr Hc Hrs Hu Hself H. pose proof I as (K & A & B). unfold track_new in H.
+  bind_inv H. rename w0 into w1. bind_inv H.
+  destruct (region_state w r) as [rs|] eqn:Ers; [|congruence]. apply region_state_some in Ers. destruct Ers as [Ers Ht].
+  assert (Hfree : aget (o_lid o) (r_local rs) = None).
+  { destruct (aget (o_lid o) (r_local rs)) as [g|] eqn:Eg; [|reflexivity].
+    pose proof (Hu _ _ Ers Eg) as ->. destruct (A _ _ _ _ Ers Eg) as (og & Eog & _). congruence. }
+  assert (Eo : get_obj (set_obj w o) (o_full o) = Some o) by (rewrite get_obj_set_obj, N.eqb_refl; reflexivity).
+  assert (T0 : TreeG (set_obj w o) (oset no_ovr (o_full o) None) None).
+  { apply TreeG_new_obj; [apply Idx_Base; exact I|exact T|exact Hn|exact Hc]. }
+  assert (B0 : Base (set_obj w o)) by (eapply IdxX_Base; apply IdxX_new; eauto).
+  pose proof (track_object_Tree _ _ _ _ _ _ B0 T0 Eo Hr Ers Hfree Hself E) as T1.
+  destruct (region_state w1 (o_region o0)); inversion H; subst; [|exact T1].
+  eapply tframe_TreeG; [apply tframe_set_futs|exact T1].
 Qed.
